@@ -329,23 +329,30 @@ void run_logical(T* t) {
   fwake(&nx.go);
 }
 
+// Under ThreadSanitizer (its runtime is linked statically and keeps its per-thread state in the executable's TLS
+// block) OS threads are not pooled and the TLS block is never rewritten: every logical thread gets a fresh OS thread,
+// which is joined at the end of the execution.
+bool no_pool() { return AnnotateIgnoreReadsBegin != nullptr; }
+
 void* pool_main(void* p) {
   OsThread* me = static_cast<OsThread*>(p);
   void* tls_block = nullptr;
   for (;;) {
     { Ign ig; fwait(&me->wake); }
     T* t = me->assigned;
-    reset_exe_tls(tls_block);
+    if (!no_pool()) reset_exe_tls(tls_block);
     run_logical(t);
-    me->idle.store(1, std::memory_order_release);
+    bool once = no_pool();
+    me->idle.store(once ? 2 : 1, std::memory_order_release);
     if (g_busy.fetch_sub(1, std::memory_order_acq_rel) == 1) futex(&g_busy, FUTEX_WAKE_PRIVATE, INT_MAX);
+    if (once) break;
   }
   return nullptr;
 }
 
 void start_os_thread(T* raw) {
   OsThread* os = nullptr;
-  for (auto* o : g_pool) if (o->idle.load(std::memory_order_acquire)) { os = o; break; }
+  for (auto* o : g_pool) if (o->idle.load(std::memory_order_acquire) == 1) { os = o; break; }
   if (!os) {
     os = new OsThread();
     pthread_attr_t a; pthread_attr_init(&a);
@@ -362,8 +369,12 @@ void start_os_thread(T* raw) {
 void wait_all_os_idle() {
   for (;;) {
     int b = g_busy.load(std::memory_order_acquire);
-    if (b == 0) return;
+    if (b == 0) break;
     futex(&g_busy, FUTEX_WAIT_PRIVATE, b);
+  }
+  if (no_pool()) {
+    for (auto* o : g_pool) { pthread_join(o->th, nullptr); delete o; }
+    g_pool.clear();
   }
 }
 
